@@ -8,13 +8,16 @@ import (
 	"verifharness/chain"
 )
 
-// staleOldRoot: the candidate defect of DESIGN §8 / findings: a block N+1 with the right number and parent
+// staleOldRoot: regression input for the fixed defect new-state:store-accepts-stale-old-root (repaired in
+// /repo by verifyOldRootMatchesHead); runs first on every check. Every variant must be rejected on both
+// backends with the database unchanged; an acceptance is reported under the original class.
+// The input: a block N+1 with the right number and parent
 // hash, a correctly recomputed block hash, whose state update starts from the root of an OLDER block k < N
 // and whose diff applied to state_k gives the root it declares. "Applying its state diff to the current
 // state" does not give that root, so the property demands rejection on both backends.
 func (r *runner) staleOldRoot() {
 	for _, newState := range []bool{false, true} {
-		for _, k := range []int{-1, 0, 1} {
+		for _, k := range []int{-1, 0, 1, 2} {
 			specs := []*chain.BlockSpec{
 				{Deploy: map[uint64]uint64{100: 500}, DeclareV0: []uint64{500}, Storage: map[uint64]map[uint64]uint64{100: {1: 11}}},
 				{Storage: map[uint64]map[uint64]uint64{100: {2: 22}}, Txs: [][]chain.Ev{{{From: 5, Keys: []uint64{1}}}}},
